@@ -248,7 +248,7 @@ pub fn crash_check(prop: &str, suites: Vec<Suite>, accept: &[&str], plan: CrashP
             );
         }
     }
-    report.set("suites", serde_json::Value::Object(per_suite));
+    report.merge_map("suites", per_suite);
     report.set("exhaustive", all_complete);
     report.set("foreign_violations_seen", foreign);
     report.set(
